@@ -456,6 +456,7 @@ func DomSelfTest(next func() uint64, rounds int) error {
 			[][]int{{1}, {0, 2}, {1}, {1, 2}, {0}, {}}, true},
 	}
 	var dm DomMask
+	var di DomIter
 	for _, l := range lits {
 		root := 0
 		for v, d := range l.idom {
@@ -518,6 +519,113 @@ func DomSelfTest(next func() uint64, rounds int) error {
 				return fmt.Errorf("reach mismatch on out=%v root=%d", out, root)
 			}
 		}
+		in := make([][]int, n)
+		for v, l := range out {
+			for _, u := range l {
+				in[u] = append(in[u], v)
+			}
+		}
+		if err := di.Run(out, in, root); err != nil {
+			return err
+		}
+		if !eqInts(di.IDom, a.IDom) {
+			return fmt.Errorf("deletion vs iterative idom on out=%v root=%d: %v vs %v", out, root, a.IDom, di.IDom)
+		}
 	}
+	return nil
+}
+
+// DomIter is the iterative dataflow solution of the dominance equations in
+// its immediate-dominator form (Cooper, Harvey, Kennedy 2001): nodes are
+// numbered in post-order of a depth-first search that follows the successor
+// lists in the order given, and idom(b) := the intersection (nearest common
+// ancestor in the current tree) of the already processed predecessors of b is
+// re-evaluated for every node in reverse post-order until a whole sweep
+// changes nothing. It is an implementation of its own (explicit stack, no
+// library code) and serves two purposes: a fourth opinion on idom*, and the
+// number of sweeps the fixed point needs on a graph (Sweeps, the final sweep
+// that changes nothing included), which measures how hard a graph is for any
+// sweep-based implementation. Buffers are reused between calls.
+type DomIter struct {
+	IDom   []int
+	Sweeps int
+	po     []int
+	num    []int
+	stV    []int
+	stI    []int
+}
+
+// Run solves for the graph (out, in) and root. in must be the transpose of
+// out; the order of the lists only influences the traversal order.
+func (d *DomIter) Run(out, in [][]int, root int) error {
+	n := len(out)
+	if n == 0 || root < 0 || root >= n || len(in) != n {
+		return fmt.Errorf("DomIter: bad size/root %d/%d", n, root)
+	}
+	if cap(d.IDom) < n {
+		d.IDom, d.num = make([]int, n), make([]int, n)
+	}
+	d.IDom, d.num = d.IDom[:n], d.num[:n]
+	idom, num := d.IDom, d.num
+	for i := range idom {
+		idom[i], num[i] = -1, -1
+	}
+	po := d.po[:0]
+	stV, stI := append(d.stV[:0], root), append(d.stI[:0], 0)
+	num[root] = -2 // on the stack or finished
+	for len(stV) > 0 {
+		top := len(stV) - 1
+		v := stV[top]
+		if k := stI[top]; k < len(out[v]) {
+			stI[top]++
+			if u := out[v][k]; num[u] == -1 {
+				num[u] = -2
+				stV, stI = append(stV, u), append(stI, 0)
+			}
+			continue
+		}
+		num[v] = len(po)
+		po = append(po, v)
+		stV, stI = stV[:top], stI[:top]
+	}
+	d.po, d.stV, d.stI = po, stV, stI
+	idom[root] = root
+	limit := n*n + n + 8 // estimates only ever move up the tree
+	d.Sweeps = 0
+	for changed := true; changed; {
+		if d.Sweeps > limit {
+			return fmt.Errorf("DomIter: no fixed point after %d sweeps", d.Sweeps)
+		}
+		changed = false
+		d.Sweeps++
+		for k := len(po) - 2; k >= 0; k-- { // po[len(po)-1] is the root
+			b := po[k]
+			ni := -1
+			for _, p := range in[b] {
+				if idom[p] < 0 {
+					continue // not processed yet, or unreachable
+				}
+				if ni < 0 {
+					ni = p
+					continue
+				}
+				a, c := p, ni
+				for a != c {
+					for num[a] < num[c] {
+						a = idom[a]
+					}
+					for num[c] < num[a] {
+						c = idom[c]
+					}
+				}
+				ni = a
+			}
+			if idom[b] != ni {
+				idom[b] = ni
+				changed = true
+			}
+		}
+	}
+	idom[root] = -1
 	return nil
 }
